@@ -5,6 +5,7 @@ package expressions
 
 import (
 	nd "github.com/osteele/liquid/zz_verifnd"
+	yaml "gopkg.in/yaml.v2"
 )
 
 func c09Eval(src string, b map[string]any) (any, bool) {
@@ -23,7 +24,7 @@ func c09Bool(src string, b map[string]any) bool {
 	return r
 }
 
-const c09OpKinds = 9
+const c09OpKinds = 24
 
 func c09Operand(k int) any {
 	switch k {
@@ -46,10 +47,47 @@ func c09Operand(k int) any {
 		return nd.Bool()
 	case 7:
 		return []any{nd.Int()}
+	case 9:
+		f := nd.Float32()
+		nd.Assume(f == f)
+		nd.Assume(f-f == 0)
+		return f
+	case 10:
+		return nd.Uint64()
+	case 11:
+		return []any{}
+	case 12:
+		return []int{nd.IntIn(0, 2)}
+	case 13:
+		return [2]int{1, nd.IntIn(0, 2)}
+	case 14:
+		return [][]any{{nd.IntIn(0, 2), "s"}}
+	case 15:
+		return []string{"a", "b"}
+	case 16:
+		return map[string]any{}
+	case 17:
+		return map[int]any{1: nd.IntIn(0, 2)}
+	case 18:
+		return yaml.MapSlice{{Key: "k", Value: nd.IntIn(0, 2)}}
+	case 19:
+		return yaml.MapSlice{}
+	case 20:
+		return c09Drop{nd.IntIn(0, 2)}
+	case 21:
+		return c09Drop{nil}
+	case 22:
+		return c09Drop{[]any{nd.IntIn(0, 2)}}
+	case 23:
+		return []any(nil)
 	default:
 		return map[string]any{"k": nd.Int()}
 	}
 }
+
+type c09Drop struct{ v any }
+
+func (d c09Drop) ToLiquid() any { return d.v }
 
 // VerifC09Coherence: a != b is the negation of a == b, a > b is b < a, a <= b is (a < b or a == b),
 // a >= b is (a > b or a == b), equality is symmetric and reflexive; no evaluation fails.
